@@ -181,14 +181,16 @@ class FlowGraph:
                 pass
 
     # -- queries
-    def back(self, start_nodes):
+    def back(self, start_nodes, stop=None):
+        """Backward slice. `stop(node)` marks nodes that are not entered
+        (e.g. the shared reader/writer cursor every codec call mutates)."""
         sl = Slice()
-        stack = list(start_nodes)
+        stack = [n for n in start_nodes if not (stop and stop(n))]
         seen = set(stack)
         while stack:
             n = stack.pop()
             for m in self.dep.get(n, ()):
-                if m not in seen:
+                if m not in seen and not (stop and stop(m)):
                     seen.add(m)
                     stack.append(m)
         sl.nodes = seen
@@ -199,7 +201,7 @@ class FlowGraph:
             sl.aggs.extend(self.agg_of.get(n, ()))
         return sl
 
-    def back_from_operand(self, body, op):
+    def back_from_operand(self, body, op, stop=None):
         """Slice of a call-argument operand; constants give an empty slice
         with the constant recorded."""
         p = op_place(op)
@@ -210,7 +212,7 @@ class FlowGraph:
                 sl.consts.append(c)
             return sl
         n = self.key(body, p)
-        sl = self.back([n])
+        sl = self.back([n], stop=stop)
         if "." in p:
             sl.reads.append((body, p))
         return sl
